@@ -16,7 +16,7 @@ for d in $pat; do
     echo -e "$id\t-\tPATCH-DOES-NOT-APPLY" | tee -a "$out"
   else
     for p in $prop $also; do
-      o=$(VERIF_REPO=$wt ./check $p quick 2>&1); rc=$?
+      o=$(SYMGO_NO_EVIDENCE=1 VERIF_REPO=$wt ./check $p quick 2>&1); rc=$?
       first=$(echo "$o" | grep -m1 -A1 "^VIOLATION" | tail -1 | sed 's/^ *//' | cut -c1-160)
       echo -e "$id\t$p\trc=$rc\t$first" | tee -a "$out"
     done
